@@ -251,7 +251,7 @@ def opsRun (op : String) : Option (P String) :=
       pure s!"{k} {fin}"
   | "genrun" => some do   -- the generational step model over the offspring counts of a whole run: state after each step
       let style ← nat; let popSize ← nat; let offSize ← nat; let steps ← nat; let counts ← list nat
-      let st : GenStyle := match style with | 0 => .whileMerge | 1 => .whileFittest | 2 => .callsMerge | _ => .oneCallKeep
+      let st : GenStyle := match style with | 0 => .whileMerge | 1 => .whileFittest | 2 => .callsMerge | 3 => .oneCallKeep | 4 => .popCallsMerge | 5 => .popCallsKeep | 6 => .whileReplace | 7 => .oneCallOne | _ => .fixed
       let c : GenCfg := { style := st, popSize := popSize, offSize := offSize }
       let sizes : Nat → Nat := fun i => counts.getD i 1
       let rec go : Nat → GenState → List String → List String
